@@ -185,6 +185,10 @@ def check(ctx):
     patterns.check_state_written_only_when_initialising(ctx)
     vectors.check_imputer_vector_width(ctx)
     vectors.check_decode_pair(ctx)
+    # matrices loaded from the on-disk cache are the ones of these settings (a wrong entry is decoded faithfully into
+    # connection sets of another problem): completeness of the settings key
+    from .c12 import cache_keys as _ck10
+    _ck10(ctx)
     ctx.floor('A6p', 2, 'returns of a decoded (vector, matrix) pair')
     ctx.floor('A21w', 4, 'eager imputers')
     ctx.floor('A13i', 8, 'writes of pattern-encoder state')
